@@ -32,8 +32,17 @@ EXIT_KINDS = ['skipcall', 'exitcall']
 #              name leaked in through sys.modules
 #   longpass / longfail: 30..120 statements, each with its own want (the last want of longfail is wrong)
 STATE_KINDS = ['useglobal', 'modval', 'longpass', 'longfail']
+# kinds that LEAVE A BLOCK-LEVEL DIRECTIVE SWITCHED ON when the doctest ends (nothing of it may reach the next
+# doctest: every doctest starts from the defaults plus the user's --options):
+#   reqblock : an UNMET block-level `# xdoctest: +REQUIRES(...)` first: everything skipped, the requirement stays
+#   reqleft  : a part runs and is checked, then an unmet block-level REQUIRES skips the rest: passed
+#   skipleft : a part runs and is checked, then a block-level `+SKIP` stays on until the end: passed
+LEFTON_KINDS = ['reqblock', 'reqleft', 'skipleft']
+UNMET = ['env:XDOCVERIF_NEVER_SET', 'module:xdocverif_no_such_module', '--xdocverif-never-given',
+         'env:XDOCVERIF_NEVER_SET, module:os']
 # kinds allowed in a two-block callable (freeform merges the blocks into one doctest)
-TWO_KINDS = ['pass', 'failout', 'failexc', 'allskip', 'partskip', 'expexc', 'comment', 'failcompile', 'baddirective']
+TWO_KINDS = ['pass', 'failout', 'failexc', 'allskip', 'partskip', 'expexc', 'comment', 'failcompile', 'baddirective',
+             'reqblock', 'reqleft', 'skipleft']
 
 DISABLE_FIRST_LINES = [
     '>>> # DISABLE_DOCTEST',
@@ -75,6 +84,11 @@ def block_lines(kind, variant, ident, modname='?'):
     v = 'v %s' % ident
     if kind == 'pass':
         return [T('a'), ">>> print('%s')" % v, v]
+    if kind == 'reqblock':
+        return ['>>> # xdoctest: +REQUIRES(%s)' % UNMET[variant % len(UNMET)], T('a'), ">>> print('%s')" % v, 'wrong']
+    if kind in ('reqleft', 'skipleft'):
+        d = '+REQUIRES(%s)' % UNMET[variant % len(UNMET)] if kind == 'reqleft' else '+SKIP'
+        return [T('a'), ">>> print('%s')" % v, v, '>>> # xdoctest: ' + d, T('b'), ">>> print('x')", 'wrong']
     if kind == 'useglobal':
         return [T('a'), '>>> print(G_VERIF + 1)', '42']
     if kind == 'modval':
@@ -158,6 +172,10 @@ def block_outcome(kind, variant, ident, opts):
     iw = bool(opts.get('IGNORE_WANT'))
     if kind == 'pass':
         return 'P', [T('a')], False
+    if kind == 'reqblock':
+        return 'S', [], True
+    if kind in ('reqleft', 'skipleft'):
+        return 'P', [T('a')], True
     if kind == 'useglobal':
         return ('P' if opts.get('__genv__') else 'F'), [T('a')], False
     if kind == 'modval':
@@ -304,13 +322,57 @@ def expected_run(spec, style, cmd, opts):
             'n_skipped': outs.count('S'), 'failed': failed, 'exit': 1 if failed else 0}
 
 
+def doc_text(spec, f, body_ind):
+    """text of the docstring of callable `f` (between the triple quotes)"""
+    cn = callname_of(f)
+    out = ['\n', body_ind + 'Docstring of %s.\n\n' % cn]
+    for j in range(f.get('prose', 0)):
+        out.append(body_ind + 'Prose line %d of a very long docstring, with some words in it.\n' % j)
+    if f.get('prose'):
+        out.append('\n')
+    for n, (k, v) in enumerate(f['blocks']):
+        if f.get('fmt') == 'plain':
+            out.append(body_ind + 'prose before block %d\n\n' % n)
+            for l in block_lines(k, v, '%s:%d' % (cn, n), spec['name']):
+                out.append(body_ind + l + '\n')
+        else:
+            out.append(body_ind + 'Example:\n')
+            for l in block_lines(k, v, '%s:%d' % (cn, n), spec['name']):
+                out.append(body_ind + '    ' + l + '\n')
+        out.append('\n')
+    out.append(body_ind)
+    return ''.join(out)
+
+
+def docs_module_name(spec):
+    return spec['name'] + '_docs'
+
+
+def render_docs(spec):
+    """`attached` modules: the sibling module that holds the docstring templates (the ONLY file with prompts)"""
+    out = ['"""docstring templates attached to the callables of %s at import time"""\n\nDOCS = {\n' % spec['name']]
+    for f in spec['funcs']:
+        if f['blocks']:
+            ind = '    ' if f.get('cls') else ''
+            out.append('    %r: %r,\n' % (callname_of(f), doc_text(spec, f, ind + '    ')))
+    out.append('}\n\n\ndef documented(key):\n    def deco(func):\n        func.__doc__ = DOCS[key]\n        return func\n    return deco\n')
+    return ''.join(out)
+
+
 def render(spec):
-    """python source of the module (google-style blocks; the same text is valid freeform)"""
+    """python source of the module (google-style blocks; the same text is valid freeform).
+    spec['attached']: the docstrings are NOT written in this file: they are attached at import time from the
+    sibling module `<name>_docs` (decorator for functions, `__doc__` assignment for methods), so this file holds
+    no prompt at all and only dynamic analysis sees the doctests."""
+    attached = bool(spec.get('attached'))
     out = [HEADER]
     out.append('def _modval(x):\n    return %r\n\n\n' % mod_token(spec['name']))
+    if attached:
+        out.append('from %s import DOCS as _DOCS, documented as _documented\n\n\n' % docs_module_name(spec))
     if spec.get('import_error'):
         out.append('raise RuntimeError("this module cannot be imported")\n\n')
     cur_cls = None
+    late = []
     for f in spec['funcs']:
         cn = callname_of(f)
         cls = f.get('cls')
@@ -325,31 +387,21 @@ def render(spec):
             head = ind + 'def %s(self%s):' % (f['name'], (', ' + f['sig']) if f['sig'] else '')
         else:
             head = 'def %s(%s):' % (f['name'], f['sig'])
+        if attached and f['blocks'] and not cls:
+            out.append('@_documented(%r)\n' % cn)
         out.append(head + '\n')
         body_ind = ind + '    '
-        if f['blocks']:
-            out.append(body_ind + '"""\n')
-            out.append(body_ind + 'Docstring of %s.\n\n' % cn)
-            for j in range(f.get('prose', 0)):
-                out.append(body_ind + 'Prose line %d of a very long docstring, with some words in it.\n' % j)
-            if f.get('prose'):
-                out.append('\n')
-            for n, (k, v) in enumerate(f['blocks']):
-                if f.get('fmt') == 'plain':
-                    out.append(body_ind + 'prose before block %d\n\n' % n)
-                    for l in block_lines(k, v, '%s:%d' % (cn, n), spec['name']):
-                        out.append(body_ind + l + '\n')
-                else:
-                    out.append(body_ind + 'Example:\n')
-                    for l in block_lines(k, v, '%s:%d' % (cn, n), spec['name']):
-                        out.append(body_ind + '    ' + l + '\n')
-                out.append('\n')
-            out.append(body_ind + '"""\n')
+        if f['blocks'] and not attached:
+            out.append(body_ind + '"""' + doc_text(spec, f, body_ind) + '"""\n')
+        if attached and f['blocks'] and cls:
+            late.append('%s.__doc__ = _DOCS[%r]\n' % (cn, cn))
         if cls and f['name'] is None:
             out.append(body_ind + 'attr = 1\n\n')
         else:
             out.append(body_ind + 'return None\n\n')
-    if spec.get('nested'):
+    if late:
+        out.append('\n' + ''.join(late) + '\n')
+    if spec.get('nested') and not attached:
         # classes nested in classes are not collected by xdoctest (neither front end): the failing doctest below
         # must never show up
         out.append('class Outer_verif(object):\n    class Inner(object):\n        def deep(self):\n'
@@ -388,7 +440,7 @@ def make_spec(name, kinds_with_variants, rng=None, shapes=True):
 
 
 def random_spec(name, rng, maxlen=12, kinds=None, two_prob=0.15, nodoc_prob=0.1):
-    kinds = kinds or (KINDS + EXTRA_KINDS + EARLY_KINDS + EXIT_KINDS + STATE_KINDS)
+    kinds = kinds or (KINDS + EXTRA_KINDS + EARLY_KINDS + EXIT_KINDS + STATE_KINDS + LEFTON_KINDS)
     n = rng.randint(1, maxlen)
     items = []
     for _ in range(n):
